@@ -54,7 +54,7 @@ type Scenario struct {
 	CNS        uint32 `json:"cNS"`
 	CDS        uint32 `json:"cDS"`
 	ChildTTL   uint32 `json:"childTTL"`
-	Child      string `json:"child"` // long | selfref | nschange
+	Child      string `json:"child"` // long | selfref | nschange | glueless
 	Deep       bool   `json:"deep"`
 	ValDelayMs int    `json:"valDelayMs"`
 	Steps      []Step `json:"steps"`
@@ -96,6 +96,7 @@ type world struct {
 	glueVer map[string][2]int // glue address -> (pv, cv) of the delegation it belongs to
 	pv, cv  int
 	pz      *authkit.Zone // current p zone
+	hz      *authkit.Zone // h.: home of the glueless NS host names
 	pch     []change      // changes of edge p (at the root)
 	cch     map[int][]change
 	qname   string
@@ -149,7 +150,7 @@ func (w *world) parentHook(edge string) func(*authkit.Exchange) {
 // the authority section of every answer, glue in the additional section.
 func (w *world) childHook(z *authkit.Zone) func(*authkit.Exchange) {
 	return func(ex *authkit.Exchange) {
-		if w.sc.Child == "long" || w.sc.Child == "" || ex.Resp == nil || len(ex.Resp.Answer) == 0 || ex.Zone != z {
+		if w.sc.Child == "long" || w.sc.Child == "glueless" || w.sc.Child == "" || ex.Resp == nil || len(ex.Resp.Answer) == 0 || ex.Zone != z {
 			return
 		}
 		if ex.Q.Qtype == dns.TypeNS || ex.Q.Qtype == dns.TypeDNSKEY || ex.Q.Qtype == dns.TypeDS {
@@ -181,6 +182,13 @@ func (w *world) newChild(pz *authkit.Zone, pv, cv int, first bool) error {
 		return err
 	}
 	cut := w.n.CutFor(z, srv, w.sc.CNS, w.sc.CDS, w.dsOn())
+	if w.sc.Child == "glueless" && w.hz != nil {
+		// a second NS whose address must be looked up (lookupV4Nss: provisional entry bounded by the cut)
+		host := fmt.Sprintf("nsc%dx%d.h.", pv, cv)
+		w.hz.AddRR(authkit.ARR(host, w.n.AllocGlue(srv), 3600))
+		cut.NS = append(cut.NS, authkit.NSRR(z.Name, host, w.sc.CNS))
+		z.AddRR(authkit.NSRR(z.Name, host, 3600))
+	}
 	if w.sc.Child == "nschange" {
 		// the child advertises a different (larger) NS set than the parent granted
 		ip2 := w.n.AllocGlue(srv)
@@ -220,6 +228,11 @@ func build(sc *Scenario) (*world, error) {
 		w.qname = "www.g.c.p."
 	}
 	n.RootSrv.SetHook(w.parentHook("p"))
+	if sc.Child == "glueless" {
+		if w.hz, _, err = n.Delegate("h.", authkit.DelegateOpts{Signed: sc.Signed, PublishDS: sc.Signed}); err != nil {
+			return nil, err
+		}
+	}
 	if w.pz, err = w.newParent(1); err != nil {
 		return nil, err
 	}
